@@ -977,3 +977,27 @@ V("c06-use-check-skipped-with-key-ops", "C06", "break", "R06.9", "check_use is s
   "rfc7517/models.py", "        if designed_use and designed_use != use:", "        if designed_use and not self.get(\"key_ops\") and designed_use != use:")
 V("c12-rsa-overrides-as-pem", "C12", "break", "R12.15", "RSAKey overrides as_pem with its own private / public selector",
   "rfc7518/rsa_key.py", "class RSAKey(AsymmetricKey[RSAPrivateKey, RSAPublicKey]):\n    key_type = \"RSA\"\n", "class RSAKey(AsymmetricKey[RSAPrivateKey, RSAPublicKey]):\n    key_type = \"RSA\"\n\n    def as_pem(self, private=None, password=None):  # type: ignore[no-untyped-def]\n        return self.as_bytes(\"PEM\", private is True or password is not None, password)\n\n")
+
+
+# ------------------------------------------------------------------------------------------------ rules of the ninth seed batch
+V("c01-dispatch-on-signature-member", "C01", "break", "R01.16", "the flattened reader is chosen whenever a top-level `signature` is present (a `signatures` array next to it is never looked at)",
+  "jws.py", "    if \"signatures\" in value:\n        general_obj = extract_general_json(value)", "    if \"signature\" not in value:\n        general_obj = extract_general_json(value)")
+V("c02-dispatch-on-ciphertext-truthiness", "C02", "break", "R02.16", "decrypt_json reads the general syntax only when the recipients member is truthy",
+  "jwe.py", "    if \"recipients\" in data:\n        general_obj = extract_general_json(data)", "    if data.get(\"recipients\"):\n        general_obj = extract_general_json(data)")
+V("c01-dispatch-flag-benign", "C01", "benign", "R01.16", "the dispatch test held in a local flag",
+  "jws.py", "    if \"signatures\" in value:\n        general_obj = extract_general_json(value)", "    is_general = \"signatures\" in value\n    if is_general:\n        general_obj = extract_general_json(value)")
+V("c05-jwe-registry-outranks-list", "C05", "break", "R05.16", "decrypt_json looks at `algorithms` only when no registry was passed",
+  "jwe.py", "    if algorithms:\n        registry = JWERegistry(algorithms=algorithms)\n    elif registry is None:\n        registry = default_registry\n\n    if \"recipients\" in data:",
+  "    if registry is None:\n        registry = JWERegistry(algorithms=algorithms) if algorithms else default_registry\n\n    if \"recipients\" in data:")
+V("c10-class-level-rule-cache", "C10", "break", "R10.11", "validate() memoises the rule lookup on the instance",
+  "rfc7519/registry.py", "            func = getattr(self, \"validate_\" + key, None)\n", "            func = getattr(self, \"validate_\" + key, None)\n            self._last_rule = func\n")
+V("c14-7797-header-from-input", "C14", "break", "R14.16", "rfc7797 serialize_json emits the caller's header dict instead of the member's (a recorded kid is lost when there was none)",
+  "rfc7797/json.py", "    if _member.header:\n        rv[\"header\"] = _member.header", "    if member.get(\"header\"):\n        rv[\"header\"] = member[\"header\"]")
+V("c15-key-before-header-check", "C15", "break", "R15.10", "serialize_compact resolves the key (which may write a kid) before the header is judged",
+  "jws.py", "    registry.check_header(protected)\n    obj = CompactSignature(protected, to_bytes(payload))\n    alg: JWSAlgModel = registry.get_alg(protected[\"alg\"])\n    key: Key = guess_key(private_key, obj, True)\n",
+  "    obj = CompactSignature(protected, to_bytes(payload))\n    key: Key = guess_key(private_key, obj, True)\n    registry.check_header(protected)\n    alg: JWSAlgModel = registry.get_alg(protected[\"alg\"])\n")
+V("c18-key-set-size-dropped", "C18", "break", "R18.10", "generate_key_set no longer hands crv_or_size on (every key gets the class default)",
+  "_keys.py", "            key = cls.registry_cls.generate_key(key_type, crv_or_size, parameters, private)", "            key = cls.registry_cls.key_types[key_type].generate_key(parameters=parameters, private=private)")
+V("c08-tolerance-outside-loop", "C08", "break", "R08.18", "the handler that tolerates a failing recipient wraps the whole recipients loop",
+  "rfc7516/message.py", "    for recipient in obj.recipients:\n        headers = recipient.headers()\n        registry.check_header(headers, True)\n        # Step 6, Determine the Key Management Mode employed by the algorithm\n        # specified by the \"alg\" (algorithm) Header Parameter.\n        alg = registry.get_alg(headers[\"alg\"])\n        try:\n            cek = decrypt_recipient(alg, enc, recipient, tag)\n            cek_set.add(cek)\n        except (AssertionError, JoseError) as error:\n            if registry.verify_all_recipients:\n                raise error\n",
+  "    try:\n        for recipient in obj.recipients:\n            headers = recipient.headers()\n            registry.check_header(headers, True)\n            alg = registry.get_alg(headers[\"alg\"])\n            cek = decrypt_recipient(alg, enc, recipient, tag)\n            cek_set.add(cek)\n    except (AssertionError, JoseError) as error:\n        if registry.verify_all_recipients:\n            raise error\n")
